@@ -995,7 +995,7 @@ func (p *Partition) compact() {
 			go func() {
 
 				// Compact to a new level.
-				p.compactToLevel(files, level+1, interrupt)
+				cleanup := p.compactToLevel(files, level+1, interrupt)
 
 				// Ensure compaction lock for the level is released.
 				p.mu.Lock()
@@ -1005,6 +1005,14 @@ func (p *Partition) compact() {
 
 				// Check for new compactions
 				p.Compact()
+
+				// Close and remove the replaced files. This waits for the readers that
+				// still reference them and must not count as a running compaction: a
+				// delete holds such a reference (its series iterator) while it waits
+				// for the running compactions to finish.
+				if cleanup != nil {
+					cleanup()
+				}
 			}()
 		}(files, level)
 	}
@@ -1012,7 +1020,12 @@ func (p *Partition) compact() {
 
 // compactToLevel compacts a set of files into a new file. Replaces old files with
 // compacted file on successful completion. This runs in a separate goroutine.
-func (p *Partition) compactToLevel(files []*IndexFile, level int, interrupt <-chan struct{}) {
+//
+// The returned function closes and removes the replaced files. It blocks until
+// all readers of those files are done and is therefore not part of the
+// compaction proper (see compact()); it is nil if the compaction did not
+// replace anything.
+func (p *Partition) compactToLevel(files []*IndexFile, level int, interrupt <-chan struct{}) (cleanup func()) {
 	assert(len(files) >= 2, "at least two index files are required for compaction")
 	assert(level > 0, "cannot compact level zero")
 
@@ -1110,15 +1123,18 @@ func (p *Partition) compactToLevel(files []*IndexFile, level int, interrupt <-ch
 	once.Do(func() { IndexFiles(files).Release() })
 
 	// Close and delete all old index files.
-	for _, f := range files {
-		log.Info("Removing index file", zap.String("path", f.Path()))
+	logger := p.logger
+	return func() {
+		for _, f := range files {
+			logger.Info("Removing index file", zap.String("path", f.Path()))
 
-		if err := f.Close(); err != nil {
-			log.Error("Cannot close index file", zap.Error(err))
-			return
-		} else if err := os.Remove(f.Path()); err != nil {
-			log.Error("Cannot remove index file", zap.Error(err))
-			return
+			if err := f.Close(); err != nil {
+				logger.Error("Cannot close index file", zap.Error(err))
+				return
+			} else if err := os.Remove(f.Path()); err != nil {
+				logger.Error("Cannot remove index file", zap.Error(err))
+				return
+			}
 		}
 	}
 }
@@ -1157,13 +1173,18 @@ func (p *Partition) checkLogFile() error {
 	// Begin compacting in a background goroutine.
 	p.currentCompactionN++
 	go func() {
-		p.compactLogFile(logFile)
+		cleanup := p.compactLogFile(logFile)
 
 		p.mu.Lock()
 		p.currentCompactionN-- // compaction is now complete
 		p.mu.Unlock()
 
 		p.Compact() // check for new compactions
+
+		// Close and remove the replaced log file (see compact()).
+		if cleanup != nil {
+			cleanup()
+		}
 	}()
 
 	return nil
@@ -1172,7 +1193,11 @@ func (p *Partition) checkLogFile() error {
 // compactLogFile compacts f into a tsi file. The new file will share the
 // same identifier but will have a ".tsi" extension. Once the log file is
 // compacted then the manifest is updated and the log file is discarded.
-func (p *Partition) compactLogFile(logFile *LogFile) {
+//
+// The returned function closes and removes the log file. It blocks until all
+// readers of the log file are done and is therefore not part of the compaction
+// proper (see compact()); it is nil if the log file was not replaced.
+func (p *Partition) compactLogFile(logFile *LogFile) (cleanup func()) {
 	if p.isClosing() {
 		return
 	}
@@ -1256,13 +1281,16 @@ func (p *Partition) compactLogFile(logFile *LogFile) {
 		zap.Int("kb_per_sec", int(float64(n)/elapsed.Seconds())/1024),
 	)
 
-	// Closing the log file will automatically wait until the ref count is zero.
-	if err := logFile.Close(); err != nil {
-		log.Error("Cannot close log file", zap.Error(err))
-		return
-	} else if err := os.Remove(logFile.Path()); err != nil {
-		log.Error("Cannot remove log file", zap.Error(err))
-		return
+	logger := p.logger
+	return func() {
+		// Closing the log file will automatically wait until the ref count is zero.
+		if err := logFile.Close(); err != nil {
+			logger.Error("Cannot close log file", zap.Error(err))
+			return
+		} else if err := os.Remove(logFile.Path()); err != nil {
+			logger.Error("Cannot remove log file", zap.Error(err))
+			return
+		}
 	}
 }
 
